@@ -22,6 +22,12 @@ import (
 func c11Group(scopes []string, n int, kind string) (*Group, error) {
 	var ch []config.Node
 	for _, s := range scopes {
+		if kind == "concurrency+rate" {
+			// two limiters in one scope: a concurrency limit followed by a slow rate limit
+			ch = append(ch, config.Node{Name: s, Args: []string{"concurrency", fmt.Sprint(n)}})
+			ch = append(ch, config.Node{Name: s, Args: []string{"rate", "1", "10s"}})
+			continue
+		}
 		if kind == "rate" {
 			ch = append(ch, config.Node{Name: s, Args: []string{"rate", fmt.Sprint(n), "1s"}})
 		} else {
@@ -49,6 +55,7 @@ type c11Params struct {
 	n       int
 	workers []c11Worker
 	bound   int
+	kind    string
 }
 
 func has(ss []string, s string) bool {
@@ -67,7 +74,11 @@ func c11Scenario(p c11Params) vx.ScheduleScenario {
 		timeouts, entered := 0, 0
 		return vsched.Scenario{
 			Root: func() {
-				g, err := c11Group(p.scopes, p.n, "concurrency")
+				kind := p.kind
+				if kind == "" {
+					kind = "concurrency"
+				}
+				g, err := c11Group(p.scopes, p.n, kind)
 				if err != nil {
 					viol = append(viol, "init|"+err.Error())
 					return
@@ -218,6 +229,13 @@ func TestVerifC11Sched(t *testing.T) {
 			ws := []c11Worker{{"1.1.1.1", "a.org", "x.org"}, {"2.2.2.2", "b.org", "y.org"}, {"1.1.1.1", "a.org", "x.org"}}
 			scs = append(scs, c11Scenario(c11Params{name: fmt.Sprintf("mixed-%s-N1", strings.Join(scopes, "+")), scopes: scopes, n: 1, workers: ws, bound: b}))
 		}
+	}
+	// a concurrency limit and a (slow) rate limit in the same scope: the second
+	// delivery obtains the concurrency permit and then times out on the rate
+	// limiter; the roll-back must return the concurrency permit
+	for _, sc := range all {
+		ws := []c11Worker{{"1.1.1.1", "a.org", "x.org"}, {"1.1.1.1", "a.org", "x.org"}}
+		scs = append(scs, c11Scenario(c11Params{name: "twolimiters-" + sc + "-N1", scopes: []string{sc}, n: 1, workers: ws, bound: 1, kind: "concurrency+rate"}))
 	}
 	r.ExploreSchedules(scs)
 }
